@@ -227,7 +227,7 @@ def gen_histories(ctx, mode):
         for b in vs:
             for k in range(kmax):
                 for torn in (False, True):
-                    for c in lasts:
+                    for c in sorted(set(lasts + [b])):     # incl. rebuilding the very version whose build was killed
                         hs.append([("E", a), ("B", None, ""), ("E", b), ("B", (k, torn), ""), ("E", c), ("B", None, "")])
     n_enum = len(hs)
     if mode == "component":
@@ -235,7 +235,7 @@ def gen_histories(ctx, mode):
             for b in vs:
                 for comp in ("ra", "rb", "rc"):
                     for torn in (False, True):
-                        for c in lasts:
+                        for c in sorted(set(lasts + [b])):   # incl. retrying the same version after rustc failed
                             f = "eql_1_t_%s%s" % (comp, ":torn" if torn else "")
                             hs.append([("E", a), ("B", None, ""), ("E", b), ("B", None, f), ("E", c), ("B", None, "")])
     nrand = 100 if quick else 5000
